@@ -58,6 +58,29 @@ Theorem T18_parallax_ecliptical_displacement_bound : forall lon lat obs eps sid 
   /\ 0 < ux * vx + uy * vy + uz * vz.
 Proof. exact ecliptical_displacement. Qed.
 
+(* semidiameter: the asin argument of the code is sin(semidiameter) / |w|, |w| the topocentric distance in
+   units of the geocentric one, and (1 - q)^2 <= |w|^2 <= (1 + q)^2: the topocentric semidiameter is the
+   geocentric one scaled by geocentric/topocentric distance; in particular the asin hypothesis of the
+   closed form holds whenever |sin(semidiameter)| <= 1 - q *)
+Theorem T18_ecliptical_semidiameter : forall lon lat semi obs eps sid dist h,
+  ecl_n lon lat obs sid dist h <> 0 ->
+  ecl_semi_arg lon lat semi obs eps sid dist h (ecl_lat lon lat obs eps sid dist h)
+  = sin (semi * (PI / 180))
+    / sqrt (ecl_n lon lat obs sid dist h * ecl_n lon lat obs sid dist h
+            + ecl_Y lon lat obs eps sid dist h * ecl_Y lon lat obs eps sid dist h
+            + ecl_Z lat obs eps sid dist h * ecl_Z lat obs eps sid dist h).
+Proof. intros. apply ecl_semi_eq. assumption. Qed.
+Theorem T18_ecliptical_topocentric_distance : forall lon lat obs eps sid dist h,
+  let rc := ecl_rc obs h in let rs := ecl_rs obs h in
+  let q := sqrt (rc * rc + rs * rs) * Rabs (ecl_k dist) in
+  let N2 := ecl_n lon lat obs sid dist h * ecl_n lon lat obs sid dist h
+            + ecl_Y lon lat obs eps sid dist h * ecl_Y lon lat obs eps sid dist h
+            + ecl_Z lat obs eps sid dist h * ecl_Z lat obs eps sid dist h in
+  (1 - q) * (1 - q) <= N2 <= (1 + q) * (1 + q).
+Proof. exact ecliptical_norm_bounds. Qed.
+
+Redirect "T18_ecliptical_semidiameter.assumptions" Print Assumptions T18_ecliptical_semidiameter.
+Redirect "T18_ecliptical_topocentric_distance.assumptions" Print Assumptions T18_ecliptical_topocentric_distance.
 Redirect "T18_parallax_ecliptical_closed_form.assumptions" Print Assumptions T18_parallax_ecliptical_closed_form.
 Redirect "T18_ecliptical_latitude.assumptions" Print Assumptions T18_ecliptical_latitude.
 Redirect "T18_parallax_ecliptical_displacement_bound.assumptions" Print Assumptions T18_parallax_ecliptical_displacement_bound.
